@@ -467,9 +467,9 @@ func (g *gen) sortMerge(s *scene, refs []href) {
 		switch {
 		case d6Condition(refs):
 			c.OracleFailKnown(idx, d6, what, siteData+":compareReferenceType", d)
-		case len(refs) < 2:
-			c.OracleFailKnown(idx, d24, what, siteData+":References.SortAndMerge", d)
 		default:
+			// includes lists of fewer than two references (repaired: the former
+			// finding C11-D24, such a list was returned untouched)
 			c.OracleFail(idx, what, siteData+":References.SortAndMerge", d)
 		}
 	}
@@ -808,7 +808,9 @@ func (g *gen) probes() {
 			len(out[0].Ranges) == 1 && out[0].Ranges[0] == pkgbytes.Range{Offset: 0, Length: 4}
 		c.Probe(d6, !exact, fmt.Sprintf("References{A[0:4]}.Exclude(B[1:3]) over two different RawBytes artifacts returned %v (panicked=%v); exact set difference is A[0:4]", out, panicked))
 	}
-	// C11-D24: a one-element list is returned unchanged, ranges neither sorted nor merged
+	// regression probe of the repaired C11-D24 (a one-element list was returned
+	// unchanged, ranges neither sorted nor merged): not a listed finding any more,
+	// so a reproduction is an ordinary failure with this input
 	{
 		a := types.RawBytes{1, 2, 3, 4, 5}
 		s := types.References{{Artifact: a, MappedRanges: types.MappedRanges{Ranges: pkgbytes.Ranges{{Offset: 2, Length: 2}, {Offset: 0, Length: 3}}}}}
